@@ -10,9 +10,44 @@ import (
 	"fmt"
 	"runtime"
 	"strings"
+	"sync"
 	"sync/atomic"
 	"time"
 )
+
+// triggerCtx is a context whose end is triggered synchronously by the harness, either as a
+// cancellation or as an expired deadline (the engine only ever asks Err()).
+type triggerCtx struct {
+	mu      sync.Mutex
+	err     error
+	done    chan struct{}
+	flavour error
+}
+
+func newTriggerCtx(flavour error) *triggerCtx {
+	return &triggerCtx{done: make(chan struct{}), flavour: flavour}
+}
+func (t *triggerCtx) Deadline() (time.Time, bool) {
+	if t.flavour == context.DeadlineExceeded {
+		return time.Unix(1, 0), true
+	}
+	return time.Time{}, false
+}
+func (t *triggerCtx) Done() <-chan struct{} { return t.done }
+func (t *triggerCtx) Err() error {
+	t.mu.Lock()
+	defer t.mu.Unlock()
+	return t.err
+}
+func (t *triggerCtx) Value(key interface{}) interface{} { return nil }
+func (t *triggerCtx) trigger() {
+	t.mu.Lock()
+	defer t.mu.Unlock()
+	if t.err == nil {
+		t.err = t.flavour
+		close(t.done)
+	}
+}
 
 var c15Opts = TraceOpts{MinRules: 2, MaxRules: 6, MinPool: 3, MaxPool: 6, Control: true, NoComplete: true, Calls: true, Strs: false, Depth: 2, Marks: true, ManyTrue: true}
 
@@ -163,10 +198,15 @@ func runC15Case(c *Ctx, idx int) *CaseResult {
 			cr.inconclusive("instance creation failed (judged by C09)")
 			continue
 		}
-		ctx, cancel := context.WithCancel(context.Background())
-		cfg := RunCfg{MaxCycle: maxCycle, Ctx: ctx, Cancel: cancel, CancelAtEvent: e}
+		// alternate between a cancellation and a deadline that expires at this instant
+		flavour := context.Canceled
+		if e%2 == 1 {
+			flavour = context.DeadlineExceeded
+		}
+		tctx := newTriggerCtx(flavour)
+		cfg := RunCfg{MaxCycle: maxCycle, Ctx: tctx, Cancel: tctx.trigger, CancelAtEvent: e}
 		res := Run(kb, prog, CopyStateLive(init), cfg)
-		cancel()
+		tctx.trigger()
 		cr.Evals++
 		a := Analyze(prog, res, cfg, nil)
 		var p int64
@@ -197,6 +237,11 @@ func runC15Case(c *Ctx, idx int) *CaseResult {
 			}
 		}
 		cr.inc("cancel_points_" + class)
+		if flavour == context.DeadlineExceeded {
+			cr.inc("points_ended_by_deadline")
+		} else {
+			cr.inc("points_ended_by_cancel")
+		}
 		// non-trivial: a further firing was still due at the instant of cancellation
 		if res.Err != nil {
 			cr.NonTrivial = append(cr.NonTrivial, hashStr(fmt.Sprintf("%s|%d", text, e)))
@@ -299,7 +344,7 @@ func runC15Case(c *Ctx, idx int) *CaseResult {
 func init() {
 	register(&Check{
 		ID: "C15", Level: "fault_enumeration",
-		Rule: "per terminating program (2-6 rules, every action list starts with T.Seq = T.Seq + 1; T.Mark(T.Seq)) a first run counts the E boundary events (BeginCycle, each EvaluateRuleEntry, ExecuteRuleEntry, each harness-method call inside a condition / an action); then for every e<=E (all up to 80 quick / 400 thorough, seeded sample beyond) the run is repeated with cancel() invoked synchronously at event e; plus pre-cancelled, deadline in the past, and 6 asynchronous cancellations per program from a second goroutine (race-detector build, verdict from stamp order only); non-trivial = distinct (program, point) where a further firing was still due (Execute had to return the context error)",
+		Rule: "per terminating program (2-6 rules, every action list starts with T.Seq = T.Seq + 1; T.Mark(T.Seq)) a first run counts the E boundary events (BeginCycle, each EvaluateRuleEntry, ExecuteRuleEntry, each harness-method call inside a condition / an action); then for every e<=E (all up to 80 quick / 400 thorough, seeded sample beyond) the run is repeated with the context ended synchronously at event e, alternately by cancellation and by an expiring deadline; plus pre-cancelled, deadline in the past, and 6 asynchronous cancellations per program from a second goroutine (race-detector build, verdict from stamp order only); non-trivial = distinct (program, point) where a further firing was still due (Execute had to return the context error)",
 		Assume: []string{"programs contain no Complete() (what should win is unspecified)", "a nil return when cancellation landed in the final quiescent cycle is accepted", "any prefix of the running rule's action list is accepted after cancellation inside it"},
 		Cases:  tierN(300, 8000),
 		Run:    runC15Case,
